@@ -13,6 +13,9 @@ import (
 
 func c08Exec(op string) string {
 	c, name := newCur(op)
+	if name == "vfp" {
+		return c07Exec(op) // ValuesForPath with sub-keys is observed by C08 as well
+	}
 	switch name {
 	case "vfk":
 		sep := c.str()
@@ -117,6 +120,9 @@ func c08Exec(op string) string {
 }
 
 func c08Describe(op string) string {
+	if strings.HasPrefix(op, "vfp ") {
+		return c07Describe(op)
+	}
 	c, name := newCur(op)
 	switch name {
 	case "vfk":
@@ -141,6 +147,9 @@ func c08Describe(op string) string {
 func segCount(p string) int { return len(strings.Split(p, ".")) }
 
 func c08Judge(op, impl, model string) Verdict {
+	if strings.HasPrefix(op, "vfp ") {
+		return c07Judge(op, impl, model)
+	}
 	_, name := newCur(op)
 	v := Verdict{Tags: []string{name}}
 	if strings.HasPrefix(model, "skip-") {
@@ -275,6 +284,13 @@ func c08Gen(r *Rng, n int) []string {
 			}
 			if r.P(40) && key != "*" {
 				ops = append(ops, fmt.Sprintf("pfk %s %s", ms, encStr(key)))
+			}
+			if r.P(25) {
+				// ValuesForPath with sub-keys: the conditions filter what the path yields - an index on
+				// the last step is taken first, the filter afterwards
+				path := r.DerivedPath(m, true, 4)
+				s3 := genSubkeys(r, m, sep)
+				ops = append(ops, fmt.Sprintf("vfp %s %s %s %s %s %d", encStr(sep), ms, encStr(path), encStrList(s3), pfTable(sep, s3), 0))
 			}
 			if r.P(40) {
 				// a sub-value of the map as subject of the predicate
